@@ -375,6 +375,34 @@ func (se *symEval) nested(g *ssa.Function, x *ssa.Call, env map[ssa.Value]symVal
 func (se *symEval) call(x *ssa.Call, env, cells map[ssa.Value]symVal, assume map[string]bool) {
 	n := callName(&x.Call)
 	args := x.Call.Args
+	// strings.Builder / bytes.Buffer: the local holds the text written so far
+	if (strings.HasPrefix(n, "strings.(Builder).") || strings.HasPrefix(n, "bytes.(Buffer).")) && len(args) >= 1 {
+		recv := args[0]
+		cur, has := cells[recv]
+		if !has {
+			cur = symVal{kind: "str"}
+		}
+		switch {
+		case strings.HasSuffix(n, ").WriteString") && len(args) == 2:
+			if a := se.val(args[1], env, assume); a.kind == "str" && cur.kind == "str" {
+				cells[recv] = symVal{kind: "str", atoms: append(append([]atom{}, cur.atoms...), a.atoms...)}
+			} else {
+				cells[recv] = symVal{kind: "unknown"}
+			}
+		case strings.HasSuffix(n, ").WriteByte") || strings.HasSuffix(n, ").WriteRune"):
+			if c, ok := args[1].(*ssa.Const); ok && cur.kind == "str" {
+				cells[recv] = symVal{kind: "str", atoms: append(append([]atom{}, cur.atoms...), atom{lit: string(rune(c.Int64()))})}
+			} else {
+				cells[recv] = symVal{kind: "unknown"}
+			}
+		case strings.HasSuffix(n, ").String"):
+			env[x] = cur
+		case strings.HasSuffix(n, ").Grow") || strings.HasSuffix(n, ").Len") || strings.HasSuffix(n, ").Reset"):
+		default:
+			cells[recv] = symVal{kind: "unknown"}
+		}
+		return
+	}
 	render := func(v symVal) string { return shapeString(v.atoms) }
 	switch {
 	case n == "fmt.Sprintf" && len(args) == 2:
